@@ -130,6 +130,24 @@ func runC11(c *Ctx) {
 			conf = sql2.AsyncWorkerConfig{BufferLimit: 3, BufferCleanInterval: 5 * time.Millisecond, ReceiveChanSize: 1, CommitWorkerCount: 1, CommitWorkerBufferSize: 1}
 			fault, callers = "resource-unknown", 1+i%2
 		}
+		// directed: the first resource's database cannot be reached for a while (every connection attempt fails,
+		// four times): its requests are to be put back and finished later, and the OTHER resource's requests of
+		// the same batch are to be finished as if nothing had happened
+		outage := i%7 == 3 && !pressure
+		if outage {
+			fault = "connect-fails-4"
+			hasBoth := map[int]bool{}
+			for _, q := range reqs {
+				hasBoth[q.res] = true
+			}
+			for res := 1; res <= 2; res++ {
+				if !hasBoth[res] {
+					q := c11Req{res, 3, 5 + res}
+					rows = append(rows, q)
+					reqs = append(reqs, q)
+				}
+			}
+		}
 		if !c.Want(cid) {
 			continue
 		}
@@ -154,6 +172,16 @@ func runC11(c *Ctx) {
 		case "prepare-fails-2":
 			rs[0].eng.AddFault(memdb.Fault{Kind: "prepare", Nth: 1})
 			rs[0].eng.AddFault(memdb.Fault{Kind: "prepare", Nth: 2})
+		case "connect-fails-4":
+			// (the pool the commit worker draws from is the resource's own, not the application's handle)
+			if v, ok := mgr.GetCachedResources().Load(rs[0].id); ok {
+				if res, ok := v.(*sql2.DBResource); ok && res.GetDB() != nil {
+					res.GetDB().SetMaxIdleConns(0)
+				}
+			}
+			for k := 1; k <= 4; k++ {
+				rs[0].eng.AddFault(memdb.Fault{Kind: "connect", Nth: k})
+			}
 		case "resource-unknown":
 			// the second resource is not (yet) known to the resource manager
 			hidden, _ = mgr.GetCachedResources().Load(r2.id)
@@ -227,6 +255,13 @@ func runC11(c *Ctx) {
 		got := c11Left(rs)
 		for _, res := range rs {
 			res.eng.ClearFaults()
+		}
+		if fault == "connect-fails-4" {
+			if v, ok := mgr.GetCachedResources().Load(rs[0].id); ok {
+				if res, ok := v.(*sql2.DBResource); ok && res.GetDB() != nil {
+					res.GetDB().SetMaxIdleConns(2)
+				}
+			}
 		}
 		c.Out.Case(cid, "C11", "ac "+strings.Join(rowToks, " ")+" | "+strings.Join(reqToks, " "), got)
 		class, detail := "", ""
